@@ -262,6 +262,7 @@ class Ctx:
         self.stats = {}
         self.findings = [e for e in load_findings() if e['property'] == prop and e['kind'] == 'finding']
         self.notes = []
+        self.last_case = None
 
     def quick(self):
         return self.tier == 'quick'
@@ -274,6 +275,7 @@ class Ctx:
 
     def case(self, case, nontrivial=True):
         """register one explored case (JSON-able)"""
+        self.last_case = case
         self.evaluations += 1
         if nontrivial:
             self.distinct.add(hashlib.sha1(json.dumps(case, sort_keys=True, default=str).encode()).hexdigest())
